@@ -20,9 +20,9 @@ BUILD_TARGETS = ["DfolsVerif.Driver.RadiusDrv", "DfolsVerif.Driver.IterDrv"]
 THEOREMS = ["Dfols.C18.radius_src_eq", "Dfols.C18.applyOp_inv", "Dfols.C18.C18_radii", "Dfols.C18.C18_rho_nonincreasing",
             "Dfols.C18.C18_delta_cap_partial", "Dfols.C18.C18_reduce_progress", "Dfols.C18.C18_no_stall",
             "Dfols.C18.C18_table_shape", "Dfols.C18.gen_reduceRho_eq", "Dfols.C18.gen_trUpdate_eq", "Dfols.C18.gen_geomDelta_eq",
-            "Dfols.C18.gen_safetyDelta_eq"]
+            "Dfols.C18.gen_safetyDelta_eq", "Dfols.C18.applyOpR_inv", "Dfols.C18.C18_radii_rounded", "Dfols.C18.gridRounding_consts"]
 TRUSTED_EXTRA = [
-    "radius theorems are exact arithmetic over the reals (rounding not covered); hypothesis 1/250 <= alpha1 <= 1 (the table accepts [0,1]: recorded)",
+    "radius theorems: exact arithmetic (C18_radii) and ANY monotone idempotent rounding with rnd x <= 2x after every *, /, sqrt, literal (C18_radii_rounded); that IEEE round-to-nearest satisfies these laws absent overflow/underflow is assumed, not proved; hypothesis 1/250 <= alpha1 <= 1 (the table accepts [0,1]: recorded)",
     "delta <= 1e10 proved for tau = 1 only (with a regulariser delta is divided by tau <= 1)",
     "table shape / counters: proved for traces the DiagAcc acceptor accepts (real runs' events are fed to it); best-objective monotonicity and the column list are checked on real tables only",
     "AST translator harness/gen_radius.py (hashes of ast.unparse)",
@@ -61,6 +61,19 @@ def mutate(rng, prob, kw, d):
         up["slow.thresh_for_slow"] = float(rng.choice([0.1, 1.0, 10.0]))
         up["slow.history_for_slow"] = int(rng.integers(1, 3))
         d["slow"] = True
+    if rng.random() < 0.12 and not up.get("restarts.use_restarts") and not kw.get("objfun_has_noise"):
+        # small alpha1 (>= 1/250, the hypothesis of C18_radii) with rhobeg/rhoend in the geometric-mean window of reduce_rho
+        a1 = float(rng.uniform(0.005, 0.035))
+        r0 = float(rng.uniform(26.0, min(240.0, 0.95 / a1)))
+        rb = float(kw.get("rhobeg", d.get("rhobeg", 0.1)))
+        up["tr_radius.alpha1"] = a1
+        kw["rhoend"] = rb / r0
+        kw["maxfun"] = int(rng.integers(150, 300))
+        d.update(rhoend=kw["rhoend"], maxfun=kw["maxfun"], small_alpha1=a1)
+    if up.get("restarts.increase_npt") and rng.random() < 0.6:
+        # several points per restart: the cap restarts.max_npt must hold whatever the increment
+        up["restarts.increase_npt_amt"] = int(rng.integers(2, 4))
+        up["restarts.max_npt"] = int(kw.get("npt", prob["n"] + 1)) + int(rng.integers(1, 4))
     if d.get("growing") and rng.random() < 0.3:
         up["growing.reset_delta"] = True
         if rng.random() < 0.5:
